@@ -210,10 +210,37 @@ Qed.
 Lemma filter_length_le_jar (f : cname * cookie -> bool) (j : jar) : (length (filter f j) <= length j)%nat.
 Proof. induction j as [|e r IH]; cbn [filter length]; [lia|]. destruct (f e); cbn [length]; lia. Qed.
 
-Theorem load_filter k now j : NoDup (names j) ->
+(* the chunk-cookie walk of expire*TokenChunks (it counts the cookies PRESENT from
+   index 0, decodable or not: fix 098055b) sees the same counts in both jars *)
+Definition same_chunk_walk (k : N) (j : jar) : Prop :=
+  let j' := filter (decodable k) j in
+  present_chunks CAccChunk j' 0 (length j') = present_chunks CAccChunk j 0 (length j)
+  /\ present_chunks CRefChunk j' 0 (length j') = present_chunks CRefChunk j 0 (length j).
+
+(* the session CONTENT GetSession loads never depends on undecodable cookies *)
+Theorem load_filter_content k now j : NoDup (names j) ->
+  let sd' := load k now (filter (decodable k) j) in
+  let sd := load k now j in
+  s_main sd' = s_main sd /\ s_acc sd' = s_acc sd /\ s_ref sd' = s_ref sd
+  /\ s_achunks sd' = s_achunks sd /\ s_rchunks sd' = s_rchunks sd
+  /\ s_marked_a sd' = s_marked_a sd /\ s_marked_r sd' = s_marked_r sd /\ s_live sd' = s_live sd.
+Proof.
+  intros Hnd. cbv zeta. unfold load.
+  rewrite !(get_session_filter k _ j Hnd), !(load_chunks_filter k _ j Hnd).
+  pose proof (filter_length_le_jar (decodable k) j) as Hle.
+  rewrite (load_chunks_fuel k CAccChunk inj_acc (ndec k j) j 0 (length (filter (decodable k) j)) (length j))
+    by (unfold ndec; lia).
+  rewrite (load_chunks_fuel k CRefChunk inj_ref (ndec k j) j 0 (length (filter (decodable k) j)) (length j))
+    by (unfold ndec; lia).
+  destruct (session_too_old now (fst (get_session k CMain j))); cbn; repeat split; reflexivity.
+Qed.
+
+(* ... and the whole loaded session is the same when, in addition, the walk that
+   schedules chunk-cookie deletions sees the same number of cookies *)
+Theorem load_filter k now j : NoDup (names j) -> same_chunk_walk k j ->
   load k now (filter (decodable k) j) = load k now j.
 Proof.
-  intros Hnd. unfold load.
+  intros Hnd [Wa Wr]. unfold load. rewrite Wa, Wr.
   rewrite !(get_session_filter k _ j Hnd), !(load_chunks_filter k _ j Hnd).
   pose proof (filter_length_le_jar (decodable k) j) as Hle.
   rewrite (load_chunks_fuel k CAccChunk inj_acc (ndec k j) j 0 (length (filter (decodable k) j)) (length j))
@@ -237,7 +264,7 @@ Proof.
 Qed.
 
 Theorem serve_ignores_undecodable E cfg st now rq rnd ans :
-  NoDup (names (q_jar rq)) ->
+  NoDup (names (q_jar rq)) -> same_chunk_walk (c_key cfg) (q_jar rq) ->
   serve E cfg st now (with_jar rq (filter (decodable (c_key cfg)) (q_jar rq))) rnd ans
   = serve E cfg st now rq rnd ans.
-Proof. intros Hnd. apply serve_jar_irrelevant. apply load_filter. exact Hnd. Qed.
+Proof. intros Hnd Hw. apply serve_jar_irrelevant. apply load_filter; assumption. Qed.
